@@ -33,11 +33,15 @@ structure Cfg where
   /-- a step's settings dictionary is applied key by key, every constant getting ITS value (a seeded defect: a
       bulk method builds the lambdas in a loop with a late-binding closure — all get the LAST value of the dict) -/
   settingsAppliedPerKey : Bool := true
+  /-- `session_results(index_by_time=False)` (plain and flat; the GET endpoints) is rebuilt from the CURRENT session's
+      results_log on every call (a seeded defect: the structure built so far is kept with the number of entries already
+      sorted in, and `begin_session` — which replaces a running session — does not drop it) -/
+  viewsDeriveFromCurrentLog : Bool := true
 deriving DecidableEq, Repr
 
 def Cfg.good (c : Cfg) : Bool :=
   c.sessionDtFromScenario && c.stepClockNormalised && c.stepFinalisesAll && c.runResetsOnAnySettings &&
-    c.changeEquationKeepsMemo && c.settingsAppliedPerKey
+    c.changeEquationKeepsMemo && c.settingsAppliedPerKey && c.viewsDeriveFromCurrentLog
 
 /-- The abstract simulator: `val f e k` is the value of equation `e` at grid index `k` when the
 settings in force at grid index `i` are `f i`. -/
@@ -311,5 +315,48 @@ settings accumulated so far -/
 def idealRuns {C R Out : Type} (sim : RunSim C R Out) : List (Option (RunSet C R)) → C × R → List Out
   | [], _ => []
   | q :: qs, cur => sim.result [] (applyReq sim cur q) :: idealRuns sim qs (applyReq sim cur q)
+
+/-! ### Wave 9 — the by-equation views over session lifecycles on one object
+
+`log` = `session_state["results_log"]` of the current session; `seen` / `kept` = the incremental view cache of the
+defective variant (entries already sorted in, and the rows they came from).  A read returns the rows that the
+by-equation / flat view regroups (`resultsByEq`, `resultsFlat` are pure functions of these rows). -/
+
+structure VState (L V : Type) where
+  log : List (Row L V)
+  seen : Nat
+  kept : List (Row L V)
+
+inductive VOp (L V : Type) where
+  | begin                    -- begin_session: replaces whatever session is running
+  | step (r : Row L V)       -- a step appends its row to the log
+  | read                     -- session_results(index_by_time=False[, flat]) / GET session-results
+  | endS                     -- end_session
+
+def vstep {L V : Type} (c : Cfg) (st : VState L V) : VOp L V → VState L V × Option (List (Row L V))
+  | .begin => ({ log := [], seen := if c.viewsDeriveFromCurrentLog then 0 else st.seen,
+                 kept := if c.viewsDeriveFromCurrentLog then [] else st.kept }, none)
+  | .step r => ({ st with log := st.log ++ [r] }, none)
+  | .read =>
+      if c.viewsDeriveFromCurrentLog then (st, some st.log)
+      else
+        let new := st.log.drop st.seen
+        ({ st with seen := st.seen + new.length, kept := st.kept ++ new }, some (st.kept ++ new))
+  | .endS => ({ log := [], seen := 0, kept := [] }, none)
+
+def vreads {L V : Type} (c : Cfg) : List (VOp L V) → VState L V → List (List (Row L V))
+  | [], _ => []
+  | op :: ops, st =>
+      match (vstep c st op).2 with
+      | some rows => rows :: vreads c ops (vstep c st op).1
+      | none => vreads c ops (vstep c st op).1
+
+/-- what the property demands of every read: the rows of the current session, nothing else -/
+def idealReads {L V : Type} : List (VOp L V) → List (Row L V) → List (List (Row L V))
+  | [], _ => []
+  | .begin :: ops, _ => idealReads ops []
+  | .step r :: ops, log => idealReads ops (log ++ [r])
+  | .read :: ops, log => log :: idealReads ops log
+  | .endS :: ops, _ => idealReads ops []
 
 end Bptk.C09
